@@ -192,33 +192,54 @@ def in_dst_single(rep, prog, rule="IN-DST"):
                 continue
             f = cands[0]
             n += 1
-            closures = [g for g in prog.fns.values() if g.crate == crate and g.is_closure and g.path.startswith(f.path + "::{closure")]
-            T = Terms(f)
-            cfg = mir.CFG(f)
-            bad = []
-            sites = 0
-            for bi, t in mir.iter_calls(f):
-                if t.get("path", "").endswith("DstInfo<'a, ABBREV>::offset") or t.get("path", "").endswith("DstInfo::offset") \
-                        or (t.get("path", "").endswith("::offset") and "DstInfo" in t.get("path", "")):
-                    sites += 1
-                    gs = guards(f, cfg, T, bi)
-                    if not any(any(is_call(x, "::in_dst") for x in walk(c)) for (c, _truth, _sb) in gs):
-                        bad.append((t.get("span") or {}).get("line"))
-            # closure form: filter(|d| d.in_dst(dt)).map(|d| d.offset()..)
-            clos_offset = [g for g in closures if any("DstInfo" in t.get("path", "") and t.get("path", "").endswith("::offset") for _, t in mir.iter_calls(g))]
-            clos_in_dst = [g for g in closures if any(t.get("path", "").endswith("::in_dst") for _, t in mir.iter_calls(g))]
-            if clos_offset:
-                sites += len(clos_offset)
-                filt = [t for _, t in mir.iter_calls(f) if t.get("path", "").endswith("Option::<T>::filter")]
-                if not (filt and clos_in_dst):
-                    bad.append("closure")
+
+            def uses_in(fn_):
+                """(sites, bad) for the uses of DstInfo::offset in fn_ and its closures"""
+                closures = [g for g in prog.fns.values() if g.crate == crate and g.is_closure and g.path.startswith(fn_.path + "::{closure")]
+                T = Terms(fn_)
+                cfg = mir.CFG(fn_)
+                bad, sites = [], 0
+                for bi, t in mir.iter_calls(fn_):
+                    if t.get("path", "").endswith("DstInfo<'a, ABBREV>::offset") or t.get("path", "").endswith("DstInfo::offset") \
+                            or (t.get("path", "").endswith("::offset") and "DstInfo" in t.get("path", "")):
+                        sites += 1
+                        gs = guards(fn_, cfg, T, bi)
+                        if not any(any(is_call(x, "::in_dst") for x in walk(c)) for (c, _truth, _sb) in gs):
+                            bad.append((t.get("span") or {}).get("line"))
+                # closure form: filter(|d| d.in_dst(dt)).map(|d| d.offset()..)
+                clos_offset = [g for g in closures if any("DstInfo" in t.get("path", "") and t.get("path", "").endswith("::offset") for _, t in mir.iter_calls(g))]
+                clos_in_dst = [g for g in closures if any(t.get("path", "").endswith("::in_dst") for _, t in mir.iter_calls(g))]
+                if clos_offset:
+                    sites += len(clos_offset)
+                    filt = [t for _, t in mir.iter_calls(fn_) if t.get("path", "").endswith("Option::<T>::filter")]
+                    if not (filt and clos_in_dst):
+                        bad.append("closure")
+                return sites, bad
+            sites, bad = uses_in(f)
+            via = ""
+            if sites == 0:
+                # the choice may have been extracted into a private helper of the same file: follow calls one level (not into
+                # the other named entry points, and not into to_ambiguous_kind / dst_info_*, which read the DST offset for the
+                # window arithmetic, not to label an instant)
+                for _bi, t in mir.iter_calls(f):
+                    g = prog.fns.get(crate + "::" + t.get("path", ""))
+                    if g is None or g.is_closure or not g.file.endswith("shared/posix.rs"):
+                        continue
+                    last = g.path.rsplit("::", 1)[-1]
+                    if last in ("to_offset", "to_offset_info", "previous_transition", "next_transition", "to_ambiguous_kind") or last.startswith("dst_info"):
+                        continue
+                    s2, b2 = uses_in(g)
+                    if s2:
+                        sites += s2
+                        bad += b2
+                        via = " (in helper %s)" % last
             key = "%s PosixTimeZone::%s" % (crate, name)
             if sites == 0:
                 rep.violation(rule, key, "anchor missing: no use of DstInfo::offset found", f.loc())
             elif bad:
-                rep.violation(rule, key, "the DST offset is used at line(s) %s without DstInfo::in_dst deciding it" % bad, f.loc())
+                rep.violation(rule, key, "the DST offset is used at line(s) %s%s without DstInfo::in_dst deciding it" % (bad, via), f.loc())
             else:
-                rep.ok(rule, key, how="%d use(s) of the DST offset, each under in_dst" % sites, loc=f.loc())
+                rep.ok(rule, key, how="%d use(s) of the DST offset%s, each under in_dst" % (sites, via), loc=f.loc())
     rep.floor(rule + " functions", n, 8)
 
 
@@ -359,9 +380,12 @@ def handover(rep, prog, rule="HANDOVER"):
             rep.ok(rule, key, how=show(bound, maxd=3)[:120], loc=loc)
     # the index of the entry that is yielded: timestamps()[IDX] inside the returned Some(TimeZoneTransition { timestamp, .. })
     idx_alts = []
+    from .term import inline_helpers
     for r in alts(T.returns()):
         if not (r[0] == "agg" and r[2] == "Some"):
             continue
+        # the construction of the transition may live in a private helper that returns it
+        r = inline_helpers(r, prog, depth=1, pred=lambda g_: "TimeZoneTransition" in str(g_.get("ret", "")))
         for x in walk(r):
             if isinstance(x, tuple) and x and x[0] == "index" and any(is_call(y, "::timestamps") for y in walk(x[1])):
                 idx_alts += list(alts(x[2]))
